@@ -683,7 +683,9 @@ class Evaluator:
             if n == "hasattr" and len(args) == 2 and isinstance(args[0], Obj) and isinstance(args[1], str):
                 return args[1] in args[0].__dict__
             if n in ("tuple", "list"):
-                return (tuple if n == "tuple" else list)(args[0])
+                return (tuple if n == "tuple" else list)(self.iterate(args[0]) if args else [])
+            if n in ("set", "frozenset") and len(args) <= 1 and not kwargs:
+                return (set if n == "set" else frozenset)(self.iterate(args[0]) if args else [])
             if n == "range" and args and all(isinstance(a, int) for a in args) and not kwargs:
                 return range(*args)
             if n == "enumerate" and len(args) == 1:
@@ -720,6 +722,20 @@ class Evaluator:
                 if f.attr == "sort" and not callable(kwargs.get("key")) and any(isinstance(x, Obj) for x in base):
                     base[:] = self.call_sorted(base)
                     return None
+                return getattr(base, f.attr)(*args, **kwargs)
+            # compiled patterns and match objects of the standard library: evaluated natively (re is not repository code)
+            import re as _re
+            if type(base).__name__ == "RegexConst" and f.attr in ("match", "search", "fullmatch", "finditer", "findall", "sub",
+                                                                   "split"):
+                return getattr(_re.compile(base.pattern, base.flags), f.attr)(*args, **kwargs)
+            if isinstance(base, _re.Pattern) and f.attr in ("match", "search", "fullmatch", "finditer", "findall", "sub", "split"):
+                return getattr(base, f.attr)(*args, **kwargs)
+            if isinstance(base, _re.Match) and f.attr in ("start", "end", "span", "group", "groups", "groupdict"):
+                return getattr(base, f.attr)(*args, **kwargs)
+            if isinstance(base, (set, frozenset)) and f.attr in ("union", "intersection", "difference", "issubset", "issuperset",
+                                                                  "isdisjoint", "copy"):
+                return getattr(base, f.attr)(*args, **kwargs)
+            if isinstance(base, set) and f.attr in ("add", "discard", "remove", "update", "clear", "pop"):
                 return getattr(base, f.attr)(*args, **kwargs)
             raise Unsupported(f"method {f.attr}")
         raise Unsupported("call")
